@@ -295,8 +295,15 @@ func c18GenRace(c *Ctx) string { //nolint:cyclop
 		case r < 6:
 			toks = append(toks, "a"+create())
 		case r < 9:
+			// a parked CreateDataChannel with an EXPLICIT id next to later creates / closes of the same id is
+			// decided by the Go scheduler (who registers the id first), not by the history: random histories
+			// park creates with generated ids only; the scripted lines keep the deterministic explicit ones
 			parkedSlots = append(parkedSlots, nslots)
-			toks = append(toks, "apr"+create())
+			k := create()
+			if strings.HasPrefix(k, "e") {
+				k = "u"
+			}
+			toks = append(toks, "apr"+k)
 		case r < 13 && connected:
 			stage := []string{"g", "s"}[c.Rng.Intn(2)]
 			parkedSlots = append(parkedSlots, nslots)
@@ -311,7 +318,21 @@ func c18GenRace(c *Ctx) string { //nolint:cyclop
 			toks = append(toks, fmt.Sprintf("aq%d", parkedSlots[i]))
 			parkedSlots = append(parkedSlots[:i], parkedSlots[i+1:]...)
 		case r < 17 && nslots > 0:
-			toks = append(toks, fmt.Sprintf("ak%d", c.Rng.Intn(nslots)))
+			// Close of a slot whose CreateDataChannel is still parked races with the open that the release
+			// performs (whether the peer still sees the channel is decided by the Go scheduler, not by the
+			// history): random histories close settled slots only
+			j := c.Rng.Intn(nslots)
+			parked := false
+			for _, p := range parkedSlots {
+				parked = parked || p == j
+			}
+			if parked {
+				toks = append(toks, "au")
+				nslots++
+
+				break
+			}
+			toks = append(toks, fmt.Sprintf("ak%d", j))
 			closedAny = true
 		case r < 19 && startParked:
 			toks = append(toks, "ay")
@@ -337,7 +358,18 @@ func c18GenRace(c *Ctx) string { //nolint:cyclop
 		op()
 	}
 	if c.Rng.Intn(3) > 0 {
-		toks = append(toks, "az"+[]string{"g", "s"}[c.Rng.Intn(2)])
+		// Start is parked at its first generate (g) or, when every channel created so far gets a generated id
+		// and none was closed, at its first store (s). With an explicit id or a closed slot before `connect`,
+		// which goroutine reaches the armed `s` gate first is a real race between Start's open loop and the
+		// other openers, so the run is not reproducible; those histories park at g only (the scripted lines
+		// `hist s apru azs connect …` keep the deterministic s-park).
+		stage := []string{"g", "s"}[c.Rng.Intn(2)]
+		for _, t := range toks {
+			if strings.HasPrefix(t, "ae") || strings.HasPrefix(t, "af") || strings.HasPrefix(t, "ak") {
+				stage = "g"
+			}
+		}
+		toks = append(toks, "az"+stage)
 		startParked = true
 	}
 	toks = append(toks, "connect")
